@@ -193,11 +193,12 @@ setclosing = """theorem L_setClosingWait (s s' : State) (t : Tid) (hint : Option
     intro res; rcases hpc with h | ⟨g, h⟩ <;> rw [h] <;> simp
   have hnc : ∀ r i ab, (s.thr t).pc ≠ .loadCommit r i ab := by
     intro r i ab; rcases hpc with h | ⟨g, h⟩ <;> rw [h] <;> simp
-  have hcp : s.closed = true → CloseProgress s (s.thr t) →
-      ∀ r', r' < s.nHeap → Entry.inMapOf s r' → r' = r ∨ r' ∈ (s.thr t).todo := by
-    intro _ hp
-    unfold CloseProgress at hp
-    rcases hpc with h | ⟨g, h⟩ <;> rw [h] at hp <;> exact hp.2
+  have hcr : (s.thr t).op = .close →
+      s.closed = true ∧ ∀ r', r' < s.nHeap → Entry.inMapOf s r' → r' = r ∨ r' ∈ (s.thr t).todo := by
+    intro hop
+    have hp := hD.thr t ht hop
+    unfold CloseRun at hp
+    rcases hpc with h | ⟨g, h⟩ <;> rw [h] at hp <;> exact hp
   thr_facts
   ENT r
   unfold setClosingWait at h
